@@ -148,7 +148,7 @@ FORMS = ["from_abs", "from_abs_as", "from_rel1", "from_rel2", "star", "star_all"
 USES = ["none", "base", "alias", "inner", "method_base"]
 
 
-def gen(form, in_class, deep, use, second):
+def gen(form, in_class, deep, use, second, priv=False):
     """defining module top[.sub].d ; consumer top[.sub].c (and optionally a second consumer importing from the first)"""
     pk = "top.sub" if deep else "top"
     src = {"top": ("'''top'''\n", True)}
@@ -159,6 +159,10 @@ def gen(form, in_class, deep, use, second):
         dsrc = "__all__ = ['Ka', 'fa']\n" + dsrc + "class Kz:\n    pass\n"
     if form == "star_emptyall":
         dsrc = "__all__ = []\n" + dsrc
+    if priv:
+        # the defining module binds an underscore name by import; `import *` must not carry it over (seed C04-6)
+        src["top.z"] = ("class Qz:\n    pass\nclass Qy:\n    pass\n", False)
+        dsrc = dsrc + "from top.z import Qz as _helper\nimport top.z as _zm\n"
     src[pk + ".d"] = (dsrc, False)
     name = "Ka"
     direct = True          # imported directly from the defining module, or through a module alias
@@ -204,6 +208,8 @@ def gen(form, in_class, deep, use, second):
         body = f"In = {name}.Inner\n"
     elif use == "method_base":
         body = f"class Um({name}.Inner):\n    pass\n"
+    if priv and not in_class:
+        imp = "from top.z import Qy as _helper\n" + imp          # bound once in the consumer: Python's star import leaves it alone
     if in_class:
         c = "class Scope:\n    " + imp + "\n" + "".join("    " + ln + "\n" for ln in body.splitlines())
     else:
@@ -258,27 +264,27 @@ def compare(sources, direct):
     return True
 
 
-CANDIDATES = ["Ka", "Kb", "fa", "fb", "Kz", "_Kp", "Inner", "meth", "dm", "d", "dd", "cm", "Uc", "Alias", "In", "Um", "Scope"]
+CANDIDATES = ["Ka", "Kb", "fa", "fb", "Kz", "_Kp", "Inner", "meth", "dm", "d", "dd", "cm", "Uc", "Alias", "In", "Um", "Scope", "_helper", "_zm", "Qz", "Qy"]
 
 
 @harness(
     parts=lambda: list(range(len(FORMS))), timeout=(200, 900), cls="E", tracing="concrete-after-choice", twin="first",
     code=["pydoctor.astbuilder.ModuleVistor.visit_Import/visit_ImportFrom/_importNames/_importAll/_handleAliasing", "pydoctor.model.Documentable.expandName/resolveName",
           "Module/Class._localNameToFullName", "pydoctor.model.System.find_object/getProcessedModule"],
-    bounds={"quick": "12 import forms (absolute, aliased, relative level 1 and 2, star, star with __all__, star with an empty __all__, module alias, dotted module, module from package, relative module alias, re-import through a package) x class scope or module scope x package depth 1..2 x 5 uses (none, base class, assignment alias, nested class alias, nested class as base) x optional third module importing the consumer",
+    bounds={"quick": "12 import forms (absolute, aliased, relative level 1 and 2, star, star with __all__, star with an empty __all__, module alias, dotted module, module from package, relative module alias, re-import through a package) x class scope or module scope x package depth 1..2 x 5 uses (none, base class, assignment alias, nested class alias, nested class as base) x optional third module importing the consumer x optional underscore names bound by import in the defining module (and the same name bound to another object in the consumer)",
             "thorough": "same"},
     outside="import cycles (C06), __all__-driven moves (C07), names bound more than once per scope, __getattr__ modules, namespace packages",
 )
-def h_project_binding(in_class: bool, deep: bool, use: int, second: bool) -> bool:
+def h_project_binding(in_class: bool, deep: bool, use: int, second: bool, priv: bool) -> bool:
     """
     pre: 0 <= use <= 4
     post: _
     """
     form = FORMS[PART if PART is not None else 0]
-    in_class, deep, second = pickb(in_class), pickb(deep), pickb(second)
+    in_class, deep, second, priv = pickb(in_class), pickb(deep), pickb(second), pickb(priv)
     use = pick(use, 0, 4)
     with NoTracing():
-        g = gen(form, in_class, deep, USES[use], second)
+        g = gen(form, in_class, deep, USES[use], second, priv)
         if g is None:
             return True
         ok = compare(g[0], g[1])
